@@ -25,7 +25,7 @@ ASSUMPTIONS = ['only explicitly listed zero reactivities are asserted (behaviour
 
 def budget(tier):
     if tier == 'thorough':
-        return dict(examples=2000, shards=16, procs=16)
+        return dict(examples=5000, shards=16, procs=16)
     return dict(examples=1200, shards=4, procs=4)
 
 
@@ -123,7 +123,7 @@ def extra(tier, seed, col):
     from ..draw import Draw
     # processes
     sink = _Sink()
-    hypothesis_run(me, tier, seed * 1000 + 992, 200 if tier == 'quick' else 800, sink)
+    hypothesis_run(me, tier, seed * 1000 + 992, 200 if tier == 'quick' else 2000, sink)
     cases = sink.cases
     seeds = ['0', '1', 'random'] if tier == 'quick' else ['0', '1', '2', '17', 'random', 'random']
     outs = {}
@@ -216,7 +216,7 @@ def extra(tier, seed, col):
             except SutError:
                 pass
 
-    nh, steps = (40, 15) if tier == 'quick' else (300, 20)
+    nh, steps = (40, 15) if tier == 'quick' else (1000, 25)
     try:
         run_state_machine_as_test(hypothesis.seed(seed * 1000 + 556)(M), settings=settings(
             max_examples=nh, stateful_step_count=steps, database=None, deadline=None,
